@@ -138,6 +138,11 @@ func (k Keeper) RequestsByReqCtx(c context.Context, req *types.QueryRequestsByRe
 		return nil, status.Errorf(codes.InvalidArgument, "empty request")
 	}
 
+	// a scan by a truncated ID would return the records of other contexts
+	if err := types.ValidateContextID(req.RequestContextId); err != nil {
+		return nil, err
+	}
+
 	ctx := sdk.UnwrapSDKContext(c)
 	iterator := k.RequestsIteratorByReqCtx(ctx, req.RequestContextId, req.BatchCounter)
 	defer iterator.Close()
@@ -175,6 +180,11 @@ func (k Keeper) Response(c context.Context, req *types.QueryResponseRequest) (*t
 func (k Keeper) Responses(c context.Context, req *types.QueryResponsesRequest) (*types.QueryResponsesResponse, error) {
 	if req == nil {
 		return nil, status.Errorf(codes.InvalidArgument, "empty request")
+	}
+
+	// a scan by a truncated ID would return the records of other contexts
+	if err := types.ValidateContextID(req.RequestContextId); err != nil {
+		return nil, err
 	}
 
 	ctx := sdk.UnwrapSDKContext(c)
